@@ -242,6 +242,7 @@ class Mixed(GammaDeltaBase, AlphaBase):
     def run(self):
         pass
 '''
+WILD_NAMES = ['Alpha', 'beta', 'Gamma', 'delta', 'Epsilon', 'zeta_fn', 'Eta', 'theta']
 PLAIN_SRC = '"""Mod."""\nclass K:\n    """k"""\n    def run(self):\n        """r"""\n'
 
 
@@ -255,6 +256,26 @@ def corpus_cases() -> List[Dict[str, Any]]:
                                         'class Impl(Service):\n    def run(self): pass\n    def stop(self): pass\n'
                                         'class Other(AlphaBase, GammaDeltaBase):\n    level = 2\n    def run(self): pass\n'},
                 'dirs': [], 'roots': ['zp'], 'args': ['-q', '--docformat=restructuredtext'], 'time': 'buildtime'})
+    # wildcard import of a module without __all__, several of those names re-exported through __all__
+    impl = '"""impl"""\n' + ''.join(
+        ('class %s:\n    """%s."""\n    def run(self):\n        """run"""\n' % (n, n)) if n[0].isupper()
+        else ('def %s():\n    """%s."""\n' % (n, n)) for n in WILD_NAMES)
+    out.append({'files': {'wp/__init__.py': '"""wp"""\nfrom wp._impl import *\n__all__ = [%s]\n' % ', '.join(repr(n) for n in WILD_NAMES),
+                          'wp/_impl.py': impl,
+                          'wp/again.py': '"""again"""\nfrom ._impl import *\nfrom . import _impl\n__all__ = [%s]\n'
+                                         % ', '.join(repr(n) for n in WILD_NAMES[:3])},
+                'dirs': [], 'roots': ['wp'], 'args': ['-q', '--project-name=W'], 'time': 'epoch'})
+    # two intersphinx inventories that document the same names; the sources refer to them
+    inv_src = ('"""Module using an external library."""\nimport ext\n\nclass Mine(ext.Thing):\n    """\n    A subclass of L{ext.Thing}, '
+               'see also L{ext.helper} and L{ext.other}.\n    """\n\ndef make() -> ext.Thing:\n    """Make a L{Mine}."""\n')
+    names = ['ext.Thing py:class 1 %s -', 'ext.helper py:function 1 %s -', 'ext.other py:function 1 %s -', 'ext py:module 1 %s -']
+    invs = {}
+    inv_args = []
+    for k, proj in enumerate(['alpha', 'beta', 'gamma', 'delta']):
+        invs['/%s/objects.inv' % proj] = [proj, [n % ('%s-%d.html#$' % (proj, j)) for j, n in enumerate(names)]]
+        inv_args.append('--intersphinx={INV}/%s/objects.inv' % proj)
+    out.append({'files': {'mymod.py': inv_src}, 'dirs': [], 'roots': ['mymod.py'],
+                'args': ['-q', '--project-name=I', '--disable-intersphinx-cache'] + inv_args, 'time': 'epoch', 'inventories': invs})
     # SOURCE_DATE_EPOCH at its edges: 0 is a valid epoch (1970-01-01 00:00:00); the second run starts 2 s later
     for ep in ('0', '1', '4102444800'):
         out.append({'files': {'m.py': PLAIN_SRC}, 'dirs': [], 'roots': ['m.py'], 'args': ['-q', '--project-name=E' + ep],
@@ -790,6 +811,10 @@ class Check(PropertyCheck):
                 self.count('cli_crashing_projects')
                 self.notes.append('generated project crashed pydoctor (C01 territory, compared anyway): ' + r['crash'][-300:])
             distinct.add(case_digest(c))
+            if c.get('inventories') and not r['observed'].get('ext_links'):
+                out.append(Violation('correspondence', 'corpus problem: the intersphinx inventories of the case were not used '
+                                     '(no link to the local server in any page): ' + r.get('crash', '')[-300:],
+                                     case={'kind': 'cli', 'case': c, 'seeds': seeds}, found_input=False))
             if not r['equal'] and len([v for v in out if v.kind == 'oracle']) < limit:
                 d = r['diff']
                 where = '%s at byte %s' % (d.get('file'), d.get('offset', '-'))
